@@ -9,7 +9,7 @@
    It returns what every node sees ([node_view]) and the SET of possible (success, return time)
    pairs (two events at the same fake instant are unordered).  Every theorem quantifies over all
    inputs and all schedules. *)
-From Verif Require Import Lib.Base Model.C08_Submitter Model.C08_Spec Proofs.C08 Check.C08.
+From Verif Require Import Lib.Base Model.C08_Submitter Model.C08_Spec Proofs.C08 Proofs.C08_Deadline Check.C08.
 
 (* ------------------------------------------------------------------------------------------- *)
 (* util.Scatter / calculateExtentSize: for every positive length and every concurrency (<= 0
@@ -355,7 +355,7 @@ Example C08_example_tolerated_chunk_then_accept :
                                 n_over := [ (0, BReply 10 (RError {| e_shape := ShFailures; e_entries := [Some PhPriorAtt] |})) ];
                                 n_ver1 := Some 0; n_ver2 := Some 0 |} ] |} in
   let calls := [[(0, [0; 1]); (0, [2; 3])]] in
-  let seen ok ret cut := {| c_id := 0; c_body := CSubmit inp [0%nat]
+  let seen ok ret cut := {| c_id := 0; c_body := CSubmit inp None [0%nat]
         {| o_panic := false; o_success := ok; o_ret := ret; o_nodes := calls; o_cut := [cut] |} |} in
   run inp [0%nat] = ([ {| v_start := Some 0; v_at := Some 0; v_calls := [(0, 2); (2, 2)]; v_done := Some 30; v_verdict := VOk |} ], [(true, 30)])
   /\ clean_input inp = true
@@ -377,7 +377,7 @@ Example C08_example_version_faults :
   let nd v d := {| n_client := Lighthouse; n_default := BReply d RAccept; n_over := []; n_ver1 := v; n_ver2 := Some 0 |} in
   let inp := {| i_kind := KSyncContributions; i_len := 2; i_conc := 3; i_timeout := 500;
                 i_nodes := [ nd None 10; nd (Some 300) 10; nd (Some 0) 40 ] |} in
-  let seen ok ret nodes := {| c_id := 0; c_body := CSubmit inp [0; 1; 2]%nat
+  let seen ok ret nodes := {| c_id := 0; c_body := CSubmit inp None [0; 1; 2]%nat
         {| o_panic := false; o_success := ok; o_ret := ret; o_nodes := nodes; o_cut := [[]; []; []] |} |} in
   snd (run inp [0; 1; 2]%nat) = [(true, 40)]
   /\ map v_at (fst (run inp [0; 1; 2]%nat)) = [None; Some 300; Some 0]
@@ -398,11 +398,122 @@ Example C08_example_version_again :
   let inp := {| i_kind := KSyncMessages; i_len := 2; i_conc := 2; i_timeout := 500;
                 i_nodes := [ {| n_client := Teku; n_default := BReply 40 dup; n_over := []; n_ver1 := Some 20; n_ver2 := Some 100 |};
                              {| n_client := Prysm; n_default := BHang; n_over := []; n_ver1 := Some 0; n_ver2 := None |} ] |} in
-  let seen ok ret := {| c_id := 0; c_body := CSubmit inp [0; 1]%nat
+  let seen ok ret := {| c_id := 0; c_body := CSubmit inp None [0; 1]%nat
         {| o_panic := false; o_success := ok; o_ret := ret; o_nodes := [[(20, [0; 1])]; [(0, [0; 1])]]; o_cut := [[]; []] |} |} in
   run inp [0; 1]%nat
   = ([ {| v_start := Some 0; v_at := Some 20; v_calls := [(0, 2)]; v_done := Some 160; v_verdict := VOk |};
        {| v_start := Some 0; v_at := Some 0; v_calls := [(0, 2)]; v_done := None; v_verdict := VOk |} ], [(true, 160)])
   /\ agree (seen true 160) = true /\ P_b (seen true 160) = true
   /\ P_b (seen false 500) = false /\ P_b (seen true 60) = false.
+Proof. vm_compute. repeat split. Qed.
+
+(* ------------------------------------------------------------------------------------------- *)
+(* The caller's context.  [run_dl cl inp order] is the same call made with a context that carries a
+   deadline [cl_deadline] ms after the call ([cl = None]: no deadline, and then it is [run]); the
+   nodes either honour the request context as the HTTP client does or ignore it ([cl_deaf]).  The
+   "timeout" of the property is the CONFIGURED one, whatever the caller's context says. *)
+Theorem C08_no_deadline_is_run : forall inp order, run_dl None inp order = run inp order.
+Proof. exact run_dl_none. Qed.
+Print Assumptions C08_no_deadline_is_run.
+
+(* every possible outcome returns no later than the configured timeout, for every deadline of the
+   caller (earlier, equal, later), and a reported failure of a non-empty submission returns exactly
+   at the timeout; the call terminates *)
+Theorem C08_returns_by_timeout_whatever_the_callers_deadline :
+  forall cl inp order o,
+    0 < i_timeout inp -> In o (snd (run_dl cl inp order)) ->
+    snd o <= i_timeout inp
+    /\ (fst o = false -> guard_ok (i_kind inp) (i_len inp) = true -> snd o = i_timeout inp).
+Proof. exact dl_returns_by_timeout. Qed.
+Print Assumptions C08_returns_by_timeout_whatever_the_callers_deadline.
+
+Theorem C08_always_returns_whatever_the_callers_deadline :
+  forall cl inp order, snd (run_dl cl inp order) <> [].
+Proof. exact dl_some_outcome. Qed.
+Print Assumptions C08_always_returns_whatever_the_callers_deadline.
+
+(* a deadline beyond the configured timeout changes nothing of what the caller sees: the possible
+   (success, return time) pairs are exactly those of a context without deadline (any concurrency,
+   any schedule, nodes honouring the context or not) -- in particular the call does not wait for the
+   caller's deadline *)
+Theorem C08_deadline_beyond_timeout_changes_nothing :
+  forall k inp order o,
+    0 < i_timeout inp -> i_timeout inp < cl_deadline k ->
+    (In o (snd (run_dl (Some k) inp order)) <-> In o (snd (run inp order))).
+Proof. exact dl_beyond_timeout. Qed.
+Print Assumptions C08_deadline_beyond_timeout_changes_nothing.
+
+(* success under a deadline is never invented: some node's goroutine stores an accepted result by the
+   timeout, and it got there by the caller's deadline (a node that ignores the context: got its
+   token by then) *)
+Theorem C08_success_under_deadline_needs_a_node :
+  forall k inp order t,
+    guard_ok (i_kind inp) (i_len inp) = true ->
+    In (true, t) (snd (run_dl (Some k) inp order)) ->
+    exists v m g, In v (views inp order) /\ v_done v = Some m /\ m <= i_timeout inp
+                  /\ (v_verdict v = VOk \/ v_verdict v = VAny)
+                  /\ (if cl_deaf k then v_start v else v_done v) = Some g /\ g <= cl_deadline k.
+Proof.
+  intros k inp order t Hg Ho.
+  destruct (dl_success_needs_node (Some k) inp order t Hg Ho) as [v [m [Hv [Hd [Hm [Hvd Hst]]]]]].
+  destruct (stores_not_no k v Hst) as [g [Hgate Hle]].
+  exists v, m, g. repeat split; assumption.
+Qed.
+Print Assumptions C08_success_under_deadline_needs_a_node.
+
+(* ... and a deadline shorter than the timeout takes no success away that a node delivers before it
+   (process concurrency >= number of nodes): if node i, taken alone, ends with an accepted result at
+   d < timeout and d is before the caller's deadline -- or the node ignores the context, whatever d --
+   every possible outcome is a success returned no later than d, whatever the other nodes do.  The
+   call does not report failure at the caller's deadline. *)
+Theorem C08_success_via_any_node_under_deadline :
+  forall cl inp order i nd d o,
+    guard_ok (i_kind inp) (i_len inp) = true -> 0 < i_timeout inp ->
+    valid_order (length (i_nodes inp)) order ->
+    (Z.of_nat (length (i_nodes inp)) <= i_conc inp)%Z ->
+    nth_error (i_nodes inp) i = Some nd ->
+    node_verdict (i_kind inp) (n_client nd) (node_behs (i_kind inp) (i_len inp) (i_conc inp) nd) = VOk ->
+    node_span (i_kind inp) nd (node_behs (i_kind inp) (i_len inp) (i_conc inp) nd) = Some d ->
+    d < i_timeout inp ->
+    match cl with
+    | None => True
+    | Some k => if cl_deaf k then 0 < cl_deadline k else d < cl_deadline k
+    end ->
+    In o (snd (run_dl cl inp order)) ->
+    fst o = true /\ (0 < d -> snd o <= d).
+Proof. exact dl_success_via. Qed.
+Print Assumptions C08_success_via_any_node_under_deadline.
+
+(* Non-vacuity and the observations seeded change C08-10 produces.  Aggregates, timeout 200 ms, one node
+   hangs, one rejects at 50 ms; the caller's deadline is 2000 ms: failure at 200 ms, and P_b condemns
+   a failure reported at 2000 ms.  One node accepting at 300 ms, timeout 500 ms, caller's deadline
+   100 ms: a node that ignores the context makes the call succeed at 300 ms (failure at 100 ms is
+   condemned); a node that honours it is cut by the caller at 100 ms and the call fails at 500 ms
+   (success invented at 300 ms with the request recorded as cut is condemned; a success at 300 ms
+   with the request left to be answered is not: the property does not oblige vouch to pass the
+   caller's deadline on). *)
+Example C08_example_callers_deadline :
+  let rej := RError {| e_shape := ShFailures; e_entries := [Some PhReal] |} in
+  let nd c b := {| n_client := c; n_default := b; n_over := []; n_ver1 := Some 0; n_ver2 := Some 0 |} in
+  let inp1 := {| i_kind := KAggregates; i_len := 2; i_conc := 2; i_timeout := 200;
+                 i_nodes := [ nd Prysm BHang; nd Lighthouse (BReply 50 rej) ] |} in
+  let long := Some {| cl_deadline := 2000; cl_deaf := false |} in
+  let seen1 ok ret cut := {| c_id := 0; c_body := CSubmit inp1 long [0; 1]%nat
+        {| o_panic := false; o_success := ok; o_ret := ret; o_nodes := [[(0, [0; 1])]; [(0, [0; 1])]]; o_cut := cut |} |} in
+  let inp2 := {| i_kind := KAggregates; i_len := 1; i_conc := 1; i_timeout := 500;
+                 i_nodes := [ nd Teku (BReply 300 RAccept) ] |} in
+  let short df := Some {| cl_deadline := 100; cl_deaf := df |} in
+  let seen2 df ok ret cut := {| c_id := 0; c_body := CSubmit inp2 (short df) [0%nat]
+        {| o_panic := false; o_success := ok; o_ret := ret; o_nodes := [[(0, [0])]]; o_cut := [cut] |} |} in
+  snd (run_dl long inp1 [0; 1]%nat) = [(false, 200)]
+  /\ agree (seen1 false 200 [[(2000, true)]; []]) = true /\ P_b (seen1 false 200 [[(2000, true)]; []]) = true
+  /\ P_b (seen1 false 2000 [[(2000, true)]; []]) = false
+  /\ snd (run_dl (short true) inp2 [0%nat]) = [(true, 300)]
+  /\ agree (seen2 true true 300 []) = true /\ P_b (seen2 true true 300 []) = true
+  /\ P_b (seen2 true false 100 []) = false
+  /\ snd (run_dl (short false) inp2 [0%nat]) = [(false, 500)]
+  /\ agree (seen2 false false 500 [(100, false)]) = true /\ P_b (seen2 false false 500 [(100, false)]) = true
+  /\ agree (seen2 false false 100 [(100, false)]) = false /\ P_b (seen2 false false 100 [(100, false)]) = true
+  /\ P_b (seen2 false true 300 [(100, false)]) = false
+  /\ agree (seen2 false true 300 []) = false /\ P_b (seen2 false true 300 []) = true.
 Proof. vm_compute. repeat split. Qed.
